@@ -495,3 +495,79 @@ def entry_forms(rr, za, shared):
 def r10(rr, repo):
     from .c02 import r2 as c02r2
     c02r2(rr, repo)
+
+
+@rule('C01.R11', "the message that opens or extends a per-id set is kept in it: Sender.new_recv stores the arriving message under its topic (subscribe-all: the set is built from the publisher's topic list; "
+                 "explicit: template plus the topic; a topics-only message adds nothing), a reset stores no message, the new set is also returned; process_msg initialises a missing set with the message on an equal id")
+def r11(rr, repo):
+    za = anchors(repo)
+    ev = za.ev()
+    ps = ev.run(za.RS_new_recv.body)
+    rr.paths += len(ps)
+    params = q.func_params(za.RS_new_recv)          # self, msg, topic, topics, poller
+    if len(params) < 4:
+        raise Unresolved(f'{za.mod.relpath}: Sender.new_recv: unexpected signature {params}')
+    P_msg, P_topic, P_topics = params[1], params[2], params[3]
+    rows = set()
+    for p in ps:
+        st = [e for e in p.events if e.kind == 'store' and e.term == 'self.recvd']
+        if not st:
+            continue
+        v = st[-1].value
+        t = U(v)
+        reset = p.facts.get(f'isnone({P_msg})')
+        all_ = p.facts.get('isnone(self.recvd_new)')
+        tp = p.facts.get(f'truthy({P_topic})')
+        o = p.outcome
+        rr.ob('new_recv returns the set it stored (process_msg goes on working with it)', o is not None and o[0] == 'return' and o[1] is not None and U(o[1]) == t, za.mod, st[-1].node, witness=f'stored {t[:60]} returned {p.outcome_text()[:60]}', key='returns-stored')
+        if reset is True:
+            rows.add('reset')
+            ok = (isinstance(v, ast.Constant) and v.value is None) if all_ is True else (t == 'self.recvd_new.copy()' or t == 'dict(self.recvd_new)')
+            rr.ob('a reset (no message) leaves an empty set: None for subscribe-all, a copy of the all-missing template otherwise', ok and all_ is not None, za.mod, st[-1].node, witness=f'{p.pc_text()} => {t[:60]}', key=f'reset|all={all_}')
+        elif reset is False and all_ is True:
+            rows.add('all')
+            ok = isinstance(v, ast.Call) and U(v.func) == 'self.init_recvd' and [U(a) for a in v.args] == [P_msg, P_topic, P_topics]
+            rr.ob("subscribe-all: the new set is built from the publisher's topic list and holds the arriving message (init_recvd(msg, topic, topics))", ok, za.mod, st[-1].node, witness=t[:100], key='start|all')
+        elif reset is False and all_ is False and tp is True:
+            rows.add('explicit-topic')
+            ok = isinstance(v, ast.Dict) and len(v.keys) == 2 and v.keys[0] is None and U(v.values[0]) == 'self.recvd_new' and U(v.keys[1]) == P_topic and U(v.values[1]) == P_msg
+            rr.ob('explicit subscription, data message: the new set is the template plus the arriving message under its topic', ok, za.mod, st[-1].node, witness=t[:100], key='start|explicit-topic')
+        elif reset is False and all_ is False and tp is False:
+            rows.add('explicit-empty')
+            rr.ob('explicit subscription, topics-only message: the new set is an all-missing copy of the template (nothing is stored under the empty topic)', t in ('self.recvd_new.copy()', 'dict(self.recvd_new)'), za.mod, st[-1].node, witness=t[:100], key='start|explicit-empty')
+        else:
+            rr.unresolved('Sender.new_recv: a path does not decide (message given?, subscribe-all?, data message?)', za.mod, st[-1].node, witness=p.pc_text()[:160], key='new-recv-row')
+    rr.ob('Sender.new_recv distinguishes reset / subscribe-all / explicit data message / explicit topics-only', rows >= {'reset', 'all', 'explicit-topic', 'explicit-empty'}, za.mod, za.RS_new_recv, witness=str(sorted(rows)), key='new-recv-rows')
+    # init_recvd lambdas: {t: msg if t == topic else None for t in topics [if not hidden]}
+    lams = [n for n in ast.walk(za.RS_init) if isinstance(n, ast.Assign) and any(U(t) == 'self.init_recvd' for t in n.targets) and isinstance(n.value, ast.Lambda)]
+    rr.floor('init_recvd definitions', len(lams), 2, za.mod, za.RS_init)
+    for n in lams:
+        lam = n.value
+        a = [x.arg for x in lam.args.args]
+        b = lam.body
+        ok = isinstance(b, ast.DictComp) and len(a) == 3 and len(b.generators) == 1 and U(b.generators[0].iter) == a[2] and isinstance(b.value, ast.IfExp) and U(b.value.body) == a[0] \
+            and isinstance(b.value.orelse, ast.Constant) and b.value.orelse.value is None and isinstance(b.value.test, ast.Compare) and isinstance(b.value.test.ops[0], ast.Eq) \
+            and {U(b.value.test.left), U(b.value.test.comparators[0])} == {U(b.key), a[1]}
+        rr.ob('init_recvd maps every listed topic to missing except the arriving one, which holds the message', ok, za.mod, n, witness=U(lam)[:140], key=f'init-recvd|{len(b.generators[0].ifs) if isinstance(b, ast.DictComp) else "?"}')
+    # process_msg, equal id
+    pm, _n = pm_paths(za)
+    rr.paths += _n
+    k = 0
+    for p in pm:
+        o = p.outcome
+        if o is None or o[0] != 'return' or not (isinstance(o[1], ast.Constant) and o[1].value is False):
+            continue
+        k += 1
+        none = [v for kk, v in p.pc if kk.startswith('isnone(') and kk.endswith('.recvd)')]
+        tp = p.facts.get(f'truthy({za.r_topic})') if hasattr(za, 'r_topic') else p.facts.get('truthy(topic)')
+        stores = [e for e in p.events if e.kind == 'store']
+        if none and none[-1] is True:
+            st = [e for e in stores if e.term.endswith('.recvd')]
+            ok = bool(st) and isinstance(st[-1].value, ast.Call) and U(st[-1].value.func).endswith('.init_recvd') and len(st[-1].value.args) == 3
+            rr.ob('equal id, no set yet: the set is created holding this message (sender.recvd = init_recvd(msg, topic, topics))', ok, za.mod, st[-1].node if st else za.R_pm, witness=p.pc_text()[-160:], key='pm-init')
+        elif none and none[-1] is False and tp is True:
+            st = [e for e in stores if '.recvd[' in e.term or e.term.startswith('recvd[')]
+            rr.ob('equal id, set exists, data message: the message is stored under its topic', bool(st), za.mod, st[-1].node if st else za.R_pm, witness=p.pc_text()[-160:], key='pm-store')
+        elif none and none[-1] is False and tp is False:
+            rr.ob('equal id, set exists, topics-only message: nothing is stored', not [e for e in stores if 'recvd' in e.term], za.mod, za.R_pm, witness=p.pc_text()[-160:], key='pm-nostore')
+    rr.floor('equal-id paths of process_msg', k, 3, za.mod, za.R_pm)
